@@ -42,7 +42,7 @@ def kinds(full):
 VARKINDS = [
     ("var:s~", "s*~ : {n}"), ("var:s~B", "s*~B : {n}"), ("var:H~H", "H*~H : {n}"), ("var:c~", "c*~ : {n}"),
     ("var:uleb", "B*%leb128 : {n}"), ("var:sleb", "b*%leb128 : {n}"), ("var:bound", "B : {n}n\ns*.{n}n : {n}"),
-    ("var:s~H>", "s*~H :> {n}"), ("var:H~I>", "H*~I :> {n}"), ("var:bound>", "H :> {n}n\ns*.{n}n : {n}"),
+    ("var:s~H>", "s*~H :> {n}"), ("var:H~H>", "H*~H :> {n}"), ("var:bound>", "H :> {n}n\ns*.{n}n : {n}"),
 ]
 
 
@@ -316,8 +316,9 @@ def var_bytes(kind):
         return b"\x03xyz", {"vn": 3, "v": b"xyz"}, 1
     if kind == "var:s~H>":
         return b"\x00\x04wxyz", {"v": b"wxyz"}, 1
-    if kind == "var:H~I>":
-        return struct.pack(">IHH", 2, 0x1122, 0x3344), {"v": (0x1122, 0x3344)}, 4
+    if kind == "var:H~H>":
+        # counter and elements of the same size: the placement of a counted array is then unambiguous
+        return struct.pack(">HHH", 2, 0x1122, 0x3344), {"v": (0x1122, 0x3344)}, 2
     if kind == "var:bound>":
         return b"\x00\x03xyz", {"vn": 3, "v": b"xyz"}, 2
     raise ValueError(kind)
